@@ -124,9 +124,9 @@ def apply_history(n, links, rem0, hist, rev=False):
         m.tasks[j].append_input_task(m.tasks[i])
         wf.initialize()
     else:
-        m = build_wf(n, links, rem0, rev if rev not in ("loaded", "loaded-id0", "loaded-sub") else ("sub" if rev == "loaded-sub" else False))
-        if rev == "loaded-sub":
-            rev = "loaded"
+        m = build_wf(n, links, rem0, rev if rev not in ("loaded", "loaded-id0", "loaded-sub", "loaded-order") else ("sub" if rev == "loaded-sub" else ("order" if rev == "loaded-order" else False)))
+        if rev in ("loaded-sub", "loaded-order"):
+            rev = "loaded"  # (loaded-order: task_list lists successors before their predecessors, and the copy that went through JSON is examined)
         if rev == "loaded-id0":
             m.tasks[min(1, n - 1)].ID = 0  # an explicit ID that happens to be falsy
             rev = "loaded"
@@ -320,6 +320,7 @@ def hist_items(tier):
                         out.append((n, links, rem0, 1, "loaded-sub"))
                         out.append((n, links, rem0, 1, "dup-links"))
                         out.append((n, links, rem0, 1, "caller-list"))
+                        out.append((n, links, rem0, 1, "loaded-order"))
                         out.append((n, links, rem0, 1, "late-append"))
                         for rot in range(len(links)):
                             out.append((n, links[rot:] + links[:rot], rem0, 1, "late-link"))  # every link takes its turn as the one added late
@@ -345,6 +346,7 @@ def hist_items(tier):
                         out.append((n, links, rem0, 2, "loaded-sub"))
                         out.append((n, links, rem0, 2, "dup-links"))
                         out.append((n, links, rem0, 2, "caller-list"))
+                        out.append((n, links, rem0, 2, "loaded-order"))
                         for rot in range(len(links)):
                             out.append((n, links[rot:] + links[:rot], rem0, 2, "late-link"))
         for links in F.fs_dags(5):
